@@ -53,7 +53,7 @@ def cases(draw):
         **({"serdes_break": draw(st.sampled_from([0, 0, 1, 2]))} if fragile else {}),
         "prog": prog,
         "limits": draw(st.sampled_from([{}, {}, {}, {"checkpoint": 300}, {"checkpoint": 120}])),
-        "backend": draw(G.backend_cfgs()),
+        "backend": {**draw(G.backend_cfgs()), **({"slow_calls": {f"{draw(st.integers(0, 2))}:{draw(st.integers(0, 4))}": draw(st.sampled_from([65.0, 90.0]))}} if draw(st.integers(0, 7)) == 0 else {})},
         "plan": {"crashes": draw(G.crash_plans(max_crashes=4, max_inv=6, max_n=14)),
                  "faults": draw(st.one_of(st.just([]), st.just([]), st.lists(st.builds(
                      lambda inv, api, cls, when: {"inv": inv, "api": api, "class": cls, "when": when},
